@@ -35,7 +35,7 @@ def run(tier, seed):
                       "sc": [1, 2, 3, 4, 5, 6, 7, 8], "ti": [[2, [68, 0]], [7, [1, 2, 3, 4, 5, 6, 7, 8]], [1, [83, 0]]], "tname": [83, 0]})
         # names so long that the payload of the AUTHENTICATE message passes 64 KiB while every single field still fits its
         # 16-bit length: the offsets are 32-bit fields and must keep addressing their fields
-        for j, (nd, nu) in enumerate([(20000, 12600), (20000, 12700), (30000, 2000), (1, 32000), (32000, 1)]):
+        for j, (nd, nu) in enumerate([(20000, 12600), (20000, 13000), (30000, 2760), (32760, 32760), (1, 32767), (16384, 16384)]):
             plans.append({"id": "long%d" % j, "domain": [68 + (i % 20) for i in range(nd)], "user": [97 + (i % 26) for i in range(nu)], "password": [112, 119], "mode": "hash" if j % 2 else "password",
                           "flagclass": "default", "flags": ntlm.FLAGS["default"], "sc": [9, 8, 7, 6, 5, 4, 3, 2], "ti": [[2, [68, 0]], [7, [1, 2, 3, 4, 5, 6, 7, 8]]], "tname": [83, 0]})
         trace = ntlm.run(wd, plans, "c15")
